@@ -188,7 +188,7 @@ def run_tour(labs, root, seed):
     os.makedirs(root, exist_ok=True)
     path = os.path.join(root, f"t{seed}.tdf")
     w = HWorld(path, seed)
-    init = w.build_initial(calls[0]["k"])
+    init = w.build_initial(2, swap=True) if calls[0]["k"] == 3 else w.build_initial(calls[0]["k"])
     steps, crash_raws = [], []
     try:
         log = []
